@@ -202,7 +202,7 @@ example : (collectSels [.spread [.field (some "counter")], .field none, .field (
 theorem refusals (r : SubRequest) :
     (r.opselOk = false → subscribe r = .refused "InvalidOperationError" false 0)
     ∧ (r.opselOk = true → r.operation ≠ .subscription → subscribe r = .refused "RuntimeError" false 0)
-    ∧ (r.opselOk = true → r.operation = .subscription → r.varsOk = false →
+    ∧ (r.opselOk = true → r.operation = .subscription → r.streamRuntime = true → r.varsOk = false →
         subscribe r = .refused "VariablesCoercionError" false 0)
     ∧ (r.opselOk = true → r.varsOk = true → (r.operation ≠ .subscription ∨ r.streamRuntime = false) →
         subscribe r = .refused "RuntimeError" false 0)
@@ -221,7 +221,7 @@ theorem refusals (r : SubRequest) :
   refine ⟨?_, ?_, ?_, ?_, ?_, ?_, ?_⟩
   · intro h; simp_all [subscribe]
   · intro h1 h2; simp_all [subscribe]
-  · intro h1 h2 h3; simp_all [subscribe]
+  · intro h1 h2 h3 h4; simp_all [subscribe]
   · rintro h1 h2 (h | h) <;> simp_all [subscribe]
   · intro h1 h2 h3 h4 hc h5; simp_all [subscribe]
   · intro h1 h2 h3 h4 hc h5 h6
@@ -229,6 +229,15 @@ theorem refusals (r : SubRequest) :
   · intro h1 h2 h3 h4 hc ha h5 h6 h7
     have := collect_eq_responses true (evs.length + 1) ⟨evs, ⟨[]⟩, 0, 0⟩ (by simp)
     simp_all [subscribe]
+
+/-- the refusals that do not depend on the request's variables come before variable coercion: a non-subscription
+    operation and a runtime without stream support are refused with the documented `RuntimeError` WHATEVER the variables are
+    (missing, wrongly typed, …) -/
+theorem refused_before_variables (r : SubRequest) (h1 : r.opselOk = true)
+    (h : r.operation ≠ .subscription ∨ r.streamRuntime = false) :
+    subscribe r = .refused "RuntimeError" false 0 := by
+  obtain ⟨oo, vo, op, root, fd, hs, rt, rc, ao, evs⟩ := r
+  rcases h with h | h <;> simp_all [subscribe]
 
 /-- **refusals, conditions that cannot be evaluated** — a subscription whose root `@skip` / `@include`
     condition, or whose subscription-field argument, cannot be coerced (a defaulted nullable variable sent
@@ -256,10 +265,10 @@ theorem accepted_stream (r : SubRequest) (rs : List Result) (pulls : Nat) (h : s
   case neg => rw [R.1 (by simpa using c0)] at h; cases h
   by_cases c1 : r.operation = .subscription
   case neg => rw [R.2.1 c0 c1] at h; cases h
-  by_cases c0' : r.varsOk = true
-  case neg => rw [R.2.2.1 c0 c1 (by simpa using c0')] at h; cases h
   by_cases c2 : r.streamRuntime = true
-  case neg => rw [R.2.2.2.1 c0 c0' (.inr (by simpa using c2))] at h; cases h
+  case neg => rw [refused_before_variables r c0 (.inr (by simpa using c2))] at h; cases h
+  by_cases c0' : r.varsOk = true
+  case neg => rw [R.2.2.1 c0 c1 c2 (by simpa using c0')] at h; cases h
   have U := refusals_uncomputable r c0 c0' c1 c2
   by_cases cc : r.rootCollectOk = true
   case neg => rw [U.1 (by simpa using cc)] at h; cases h
